@@ -350,11 +350,10 @@ func c17summary(w *World, r *Report) {
 	}
 	tr := w.Tracer()
 	fields := map[string]ssa.Value{}
-	for _, fs := range FieldStores(fn) {
-		if fs.Struct != nil && fs.Struct.Obj().Name() == "Summary" {
-			// the literal on the success path (the error path builds an empty Summary)
-			fields[fs.Field] = fs.Store.Val
-		}
+	// the summary literal may be built by a constructor helper: its field values in this function's terms
+	for _, sb := range w.storesBelow(fn, "Summary", 2, nil) {
+		// the literal on the success path (the error path builds an empty Summary)
+		fields[sb.FS.Field] = sb.Val
 	}
 	pos := w.Pos(fn.Pos())
 	accAcc := func(v ssa.Value, method string) bool {
